@@ -358,9 +358,10 @@ class Summary:
             same = set(f.params) & set(ref_params)
             own_rest = [p for p in f.params if p not in same]
             ref_rest = [r for r in ref_params if r not in same]
-            if len(own_rest) < len(ref_rest):
-                raise AnalysisError(f"{f.qual}: parameter list changed ({f.params}; the reference has {ref_params})")
-            self.rename = dict(zip(own_rest, ref_rest))
+            # fewer parameters than the reference: the remaining reference names are simply not inputs any more - an
+            # obligation that needs one of them reports that (matching by position stops being meaningful, so only names
+            # that are not reference names at all are renamed, in order)
+            self.rename = dict(zip(own_rest, ref_rest)) if len(own_rest) >= len(ref_rest) else {}
         self.paths: t.List[PathSum] = []
         g = self.cfg
         n = 0
